@@ -85,4 +85,14 @@ example : getArgsSel exRo none 0 { readouts := true } =
 
 example : getArgsSel exRo none 0 fluxFlags = .ok [("r", 6)] := by decide +kernel
 
+/-- F-C01-3 (known finding), witnessed on the model: a readout naming a readout declared AFTER it is
+    rejected with `KeyError`, the other declaration order of the same two readouts returns numbers —
+    which is why `C01_args_selected` promises `Holds` only for readouts that name no later readout. -/
+def exLater : Content :=
+  { exRo with readouts := [("b", ⟨["a"], fun v => 2 * v.getD 0 0⟩),
+                            ("a", ⟨["r", "dat"], fun v => v.getD 0 0 + v.getD 1 0⟩)] }
+
+example : getArgsSel exLater none 0 { readouts := true } = .error (.keyError "a") := by decide +kernel
+example : (getArgsSel exRo none 0 { readouts := true }).toOption.isSome = true := by decide +kernel
+
 end Mxl.C01
